@@ -155,14 +155,14 @@ def props():
         bad=lambda r: r.choice([-0.5, 132.5, Emu(20116801), "1"]))
     add("paragraph", "space_before", d_spc, none_ok=True, quantum=127, bad=lambda r: r.choice([Emu(20116801), Emu(-1), 1.5, "3"]))
     add("paragraph", "space_after", d_spc, none_ok=True, quantum=127, bad=lambda r: r.choice([Emu(20116801), Emu(-1), 1.5, "3"]))
-    add("paragraph", "text", d_text)
+    add("paragraph", "text", d_text, norm=lambda v: v.replace("\n", "\v"))
     # -- run
     add("run", "text", lambda r: d_str(r))
     # -- font
     add("font", "bold", d_tri, none_ok=True)
     add("font", "italic", d_tri, none_ok=True)
     add("font", "underline", lambda r: r.choice([True, False, None, E(r, text.MSO_UNDERLINE, skip=("MIXED",))]), none_ok=True,
-        norm=lambda v: v)
+        norm=lambda v: True if v is text.MSO_UNDERLINE.SINGLE_LINE else False if v is text.MSO_UNDERLINE.NONE else v)
     add("font", "size", d_pt, none_ok=True, quantum=127, bad=lambda r: r.choice(["12", 12.5, Emu(0), Pt(4001), Pt(0.5)]))
     add("font", "name", lambda r: r.choice(["Calibri", "Arial Black", "MS ゴシック", d_str(r) or "A"]), none_ok=True)
     add("font", "language_id", lambda r: E(r, lang.MSO_LANGUAGE_ID, skip=("MIXED",)), none_ok=True)
@@ -185,8 +185,9 @@ def props():
         add("cell", n, d_c32, none_ok=True, bad=lambda r: r.choice(["1", 2.5, 2**31]))
     add("cell", "vertical_anchor", lambda r: E(r, text.MSO_ANCHOR, skip=("MIXED",)), none_ok=True)
     add("cell", "text", d_text)
-    add("row", "height", d_emu)
-    add("column", "width", d_emu)
+    # (the table's own height / width is the sum of these: values are kept where the sum stays inside the type)
+    add("row", "height", lambda r: r.choice([0, 1, 370840, r.randint(0, 2**31 - 1)]))
+    add("column", "width", lambda r: r.choice([0, 1, 914400, r.randint(0, 2**31 - 1)]))
     # -- chart
     add("chart", "chart_style", lambda r: r.randint(1, 48), none_ok=True, bad=lambda r: r.choice([0, 49, "2"]))
     add("chart", "has_legend", d_bool)
